@@ -151,7 +151,7 @@ func treeAddresses(ast *js.AST) map[uintptr]bool {
 }
 
 func c18Check(t *fw.T, ast *js.AST, policy int) bool {
-	pos := jsTreePositions(ast)
+	pos := jsTreePositionsOpt(ast, true)
 	addrs := treeAddresses(ast)
 	v := &c18Visitor{policy: policy, rng: t.Rng, pruned: map[nodeKey]bool{}}
 	if p := fw.Guard(func() { js.Walk(v, ast) }); p != "" {
@@ -335,6 +335,9 @@ var c18Probes = []string{
 	"tag`a${b}c${d}`; o.f`x`; try {} catch ({e}) {}",
 	"({a = 1} = o); [{b = f(1)}] = arr; for ({c = 1} of l); ({p: {q = x+1}} = o)",
 	"[a, , b = 2, ...c.d] = e; ({k: [m = n], ...r} = s)",
+	"x = [1,,2]; [,a] = y; f([,]); for ([b,,c] of d);",
+	"class A { #p = 1; m(o) { return this.#p + o?.#p + o.#f() } #f(){} }",
+	"for (;;) break; for (; a < b; a++);",
 }
 
 // c18Future: programs in syntax newer than the pinned grammar. As long as js.Parse rejects them nothing is claimed; a
@@ -387,7 +390,7 @@ func init() {
 		ID: "C18",
 		Rule: "case = a tree returned by js.Parse (random spelling of a generated ES2022 program, or a mutated corpus entry that parses) x visitor policy {descend everywhere, return nil at a random subset, return a different visitor object}; the Enter/Exit log of a recording visitor is compared with a reflection walk over the same tree: " +
 			"every statement/expression/binding/identifier/block position entered (exactly once per position when descending everywhere), a child never before its parent, Exit exactly once per non-nil Enter in stack order, nothing entered below a node whose Enter returned nil, every entered node an addressable part of the tree. non-trivial = accepted input; distinct by policy+bytes",
-		Assume:   []string{"required positions are the non-nil IStmt/IExpr/IBinding interface values, *Var and *BlockStmt reachable through exported fields other than Scope; Walk may additionally enter sub-structures of the tree (Params, Element, Property, Arg, …)"},
+		Assume:   []string{"required positions are the non-nil IStmt/IExpr/IBinding interface values, *Var and *BlockStmt reachable through exported fields other than Scope, and the addressable structs of the tree whose pointer type implements INode (Element, Property, PropertyName, Params, BindingElement, Arg, CaseClause, Field, Alias, …; a zero struct in a field is an absent part, a zero element of a list is present); LiteralExpr values (embedded by value) and the ClassElement wrapper, which Walk passes over, are not required"},
 		Required: []string{"trees", "walk.events", "walk.positions", "walk.comment.nodes", "probes"},
 		Streams: []fw.Stream{
 			{Name: "probes", Quick: len(c18Probes), Thorough: len(c18Probes), Run: c18Probe},
